@@ -394,7 +394,7 @@ class ExceptionInfo:
         """
         type_str = exc_type.__qualname__
         type_mod = exc_type.__module__
-        if type_mod not in ("__main__", "__builtin__", "exceptions", "builtins"):
+        if type_mod not in ("__main__", "builtins"):
             type_str = f'{type_mod}.{type_str}'
         val_str = _some_str(exc_value)
         tb_info = cls.tb_info_type.from_traceback(traceback)
@@ -591,7 +591,7 @@ def format_exception_only(etype, value):
 
     stype = etype.__qualname__
     smod = etype.__module__
-    if smod not in ("__main__", "builtins", "exceptions"):
+    if smod not in ("__main__", "builtins"):
         stype = smod + '.' + stype
 
     if not issubclass(etype, SyntaxError):
